@@ -5,8 +5,8 @@ From Coq Require Import Lia.
 From RV.Model Require Import Base Word Limbs Bytes DivRecip DivSmall Redc.
 From RV.Model Require DivRef DivKnuth Shift.
 From RV.Gen Require Import Prim Scalar.
-From RV.Model Require Add Mul UDiv Conv Bits.
-From RV.Proofs Require Import BaseFacts PfGenScalar PfGenAdd PfGenMul PfGenDiv PfGenSpecial PfGenCtor PfGenBits PfGenDivRef PfGenLimbs PfGenRedc PfGenKnuth PfGenShift.
+From RV.Model Require Add Mul UDiv Conv Bits Pow.
+From RV.Proofs Require Import BaseFacts PfGenScalar PfGenAdd PfGenMul PfGenDiv PfGenSpecial PfGenCtor PfGenBits PfGenDivRef PfGenLimbs PfGenRedc PfGenKnuth PfGenShift PfGenPow.
 
 Theorem GenTie_source_equals_model :
   (forall bits, 0 <= bits -> bits + 63 < B -> g_nlimbs bits = Val (nlimbs bits)) /\
@@ -395,6 +395,17 @@ Theorem GenTie_trailing_rs : forall bits a,
 Proof. exact g_trailing_eq. Qed.
 Print Assumptions GenTie_trailing_rs.
 
+(* src/pow.rs: the square-and-multiply loops `while !exp.is_zero()` run with the round bound BITS + 1 *)
+Theorem GenTie_pow_rs : forall bits a e,
+  0 <= bits -> nlimbs bits < B -> canon bits a -> canon bits e ->
+  g_overflowing_pow bits (nlimbs bits) a e = Pow.overflowing_pow bits a e /\
+  g_checked_pow bits (nlimbs bits) a e = Pow.checked_pow bits a e /\
+  g_saturating_pow bits (nlimbs bits) a e = Pow.saturating_pow bits a e /\
+  g_wrapping_pow bits (nlimbs bits) a e = Pow.wrapping_pow bits a e /\
+  g_pow bits (nlimbs bits) a e = Pow.pow bits a e.
+Proof. exact g_pow_eq. Qed.
+Print Assumptions GenTie_pow_rs.
+
 (* the premises are satisfiable and the generated code computes: reciprocal(2^63) = 2^64 - 1 *)
 Example GenTie_nonvacuous :
   g_reciprocal_mg10 (2 ^ 63) = Val (2 ^ 64 - 1) /\ g_mask 65 = Val 1 /\ g_nlimbs 65 = Val 2 /\
@@ -416,6 +427,9 @@ Example GenTie_nonvacuous :
   g_arithmetic_shr 65 2 [0; 1] 64 = Val [2 ^ 64 - 1; 1] /\
   g_bitxor 65 2 [5; 1] [3; 1] = Val [6; 0] /\
   g_leading_zeros 65 2 [5; 0] = Val 62 /\
+  g_overflowing_pow 65 2 [3; 0] [41; 0] = Val ([36472996377170786403 mod 2 ^ 64; 1], false) /\
+  g_overflowing_pow 65 2 [3; 0] [42; 0] = Val ([(3 ^ 42) mod 2 ^ 64; ((3 ^ 42) / 2 ^ 64) mod 2], true) /\
+  g_wrapping_pow 65 2 [0; 1] [2; 0] = Val [0; 0] /\
   g_trailing_zeros 65 2 [0; 1] = Val 64 /\
   g_trailing_ones 65 2 [7; 0] = Val 3 /\
   g_checked_next_power_of_two 65 2 [5; 0] = Val (Some [8; 0]) /\
